@@ -21,7 +21,7 @@ var strT = &ctype{kind: "scalar", scalar: "SVarchar"}
 func coqStr(s string) string { return "\"" + strings.ReplaceAll(s, "\"", "\"\"") + "\"%string" }
 
 func gtyOf(t *ctype, rt reflect.Type) (string, bool) {
-	if rt == tBigPtr && t.kind == "scalar" {
+	if isBigPtr(rt) && t.kind == "scalar" {
 		return "(GPtr (GLeaf " + t.scalar + " LVal))", true
 	}
 	switch rt.Kind() {
@@ -127,7 +127,7 @@ func fieldCtype(t *ctype, f reflect.StructField, i int) *ctype {
 }
 
 func gvalOf(t *ctype, rt reflect.Type, v reflect.Value) string {
-	if rt == tBigPtr && t.kind == "scalar" {
+	if isBigPtr(rt) && t.kind == "scalar" {
 		if v.IsNil() {
 			return "GVNilPtr"
 		}
